@@ -142,7 +142,7 @@ def check_module(R, obs, rng, name, module, family, must_be_supported):
                 continue
             for args in wasmsub.inputs_for(rng, f, 6 if must_be_supported else 10):
                 R.evaluations += 1
-                ref = diff.run_ref(module, f.name, args, {}, floor_mod=True)
+                ref = diff.run_ref(module, f.name, args, {}, floor_mod=True, wide_literals=True)
                 if ref.status != "ok":
                     R.count("dropped_out_of_domain")
                     continue
@@ -174,7 +174,7 @@ def check_module(R, obs, rng, name, module, family, must_be_supported):
                         # an int that depends on a float comparison can legitimately flip between double and single
                         # precision: when the source evaluated at single precision disagrees with the double
                         # evaluation the case is precision-sensitive and not judged
-                        r32 = diff.run_ref(module, f.name, args, {}, f32_mode=True, floor_mod=True)
+                        r32 = diff.run_ref(module, f.name, args, {}, f32_mode=True, floor_mod=True, wide_literals=True)
                         if r32.status != "ok" or not sem.values_equal(r32.value, ref.value):
                             bad = None
                             R.count("dropped_precision_sensitive_int")
@@ -182,7 +182,7 @@ def check_module(R, obs, rng, name, module, family, must_be_supported):
                         # the VM computes in double precision and rounds once; a conforming engine rounds after
                         # every operation.  Cancellation can amplify that beyond any simple bound, so the source
                         # semantics evaluated at single precision (same operations, same order) decides such cases
-                        r32 = diff.run_ref(module, f.name, args, {}, f32_mode=True, floor_mod=True)
+                        r32 = diff.run_ref(module, f.name, args, {}, f32_mode=True, floor_mod=True, wide_literals=True)
                         if r32.status != "ok":
                             bad = None
                             R.count("dropped_f32_out_of_domain")
